@@ -348,3 +348,32 @@ func H_C08_clone_of_derived_sources() {
 	}
 	verifReach("end")
 }
+
+// wider and deeper skeletons: several sibling containers at one level, the earlier ones holding several
+// nested containers themselves (three container levels)
+func H_C08_clone_wide_and_deep() {
+	a, b := nondetInt(), hBytesStr(1)
+	var c any
+	switch nondetIntRange(0, 2) {
+	case 0:
+		c = NewList(NewList(NewList(a), NewList(b)), NewList(NewList(a)), NewList(NewObject("k", NewList(b))))
+	case 1:
+		c = NewObject("x", NewObject("p", NewList(a), "q", NewObject("r", b)), "y", NewObject("s", NewList(b)), "z", NewList(NewList(a), NewList(b)))
+	default:
+		c = NewList(NewObject("p", NewList(a), "q", NewList(b)), NewList(NewObject("r", NewList(a))), NewObject("s", NewObject("t", NewList(b))))
+	}
+	before := hSnapAny(c)
+	cl := hCloneAny(c)
+	verifAssert(hExact(before, hSnapAny(cl)), "the clone has the same content")
+	var co, cc []any
+	hContainers(c, &co)
+	hContainers(cl, &cc)
+	shared := false
+	for _, x := range co {
+		for _, y := range cc {
+			shared = shared || x == y
+		}
+	}
+	verifAssert(len(co) == len(cc) && !shared, "no container reachable from the clone is reachable from the original")
+	verifReach("end")
+}
